@@ -1,6 +1,5 @@
 (* C16: the token stream of the printed document.
-     tokens (d_prog c p) = T_prog p      for every configuration c, every parser-shaped p outside the
-                                          zero-literal defect class (zsafe)
+     tokens (d_prog c p) = T_prog p      for every configuration c and every parser-shaped p
    i.e. the document model (Printer.v) followed by the lexer's gluing of `cmp 0`, `0 cmp`, `: cns`
    yields exactly the direct token printer of FmtDefs.v.  Layout (width, indentation,
    allow_linebreaks, the short-scrutinee variant of destructor chains) does not matter. *)
@@ -15,6 +14,7 @@ Fixpoint ak (d : doc) (k : list atom) : list atom :=
   match d with
   | DNil | DSpace | DLine | DLine_ | DHardline => k
   | DText a => a :: k
+  | DComment => AComment :: k
   | DAppend a b => ak a (ak b k)
   | DNest _ d | DGroup d | DAlign d => ak d k
   end.
@@ -70,20 +70,24 @@ Proof. reflexivity. Qed.
 Lemma glue_num_pos n k : n <> 0%N -> glue (ANum n :: k) = TNum n :: glue k.
 Proof. destruct n; [congruence|reflexivity]. Qed.
 Lemma glue_num0 k : nocmp k = true -> glue (ANum 0 :: k) = TNum 0 :: glue k.
-Proof. destruct k as [|[| |[]] ?]; try discriminate; reflexivity. Qed.
+Proof. destruct k as [|[| |[]|] ?]; try discriminate; reflexivity. Qed.
 Definition plain_sym (y : sym) : bool := match y with SCmp _ | SColon => false | _ => true end.
 Lemma glue_sym y k : plain_sym y = true -> glue (ASym y :: k) = TSym y :: glue k.
 Proof. destruct y; try discriminate; reflexivity. Qed.
 Lemma glue_cmp c k : nozero k = true -> glue (ASym (SCmp c) :: k) = TSym (SCmp c) :: glue k.
-Proof. destruct k as [|[|[]|] ?]; try discriminate; reflexivity. Qed.
+Proof. destruct k as [|[|[]| |] ?]; try discriminate; reflexivity. Qed.
 Lemma glue_cmp0 c k : glue (ASym (SCmp c) :: ANum 0 :: k) = TCmpZ c :: glue k.
 Proof. reflexivity. Qed.
 Lemma glue_colon k : nocns k = true -> glue (ASym SColon :: k) = TSym SColon :: glue k.
 Proof.
-  destruct k as [|[s| |] ?]; try reflexivity. intros H. cbn [glue].
+  destruct k as [|[s| | |] ?]; try reflexivity. intros H. cbn [glue].
   destruct (String.eqb_spec s "cns"%string) as [->|E]; [discriminate|reflexivity].
 Qed.
 Lemma glue_colon_cns k : glue (ASym SColon :: AWord "cns"%string :: k) = TColonCns :: glue k.
+Proof. reflexivity. Qed.
+Lemma glue_comment k : glue (AComment :: k) = glue k.
+Proof. reflexivity. Qed.
+Lemma glue_zero_cmp c k : glue (ANum 0 :: ASym (SCmp c) :: k) = TZCmp c :: glue k.
 Proof. reflexivity. Qed.
 
 (* ---------- lists ---------- *)
@@ -344,7 +348,8 @@ Proof.
     + eexists _, _; split; [reflexivity|]. destruct n; cbn in *; try discriminate; congruence.
   - destruct (IHt1 (ak (DAppend (DAppend (DAppend DSpace (d_binop o)) DSpace) (DGroup (d_term c t2))) k)) as (a & tl & E & H).
     exists a, tl. split; [|exact H]. cbn [d_term ak] in *. exact E.
-  - eexists _, _; split; [reflexivity | discriminate].
+  - cbn [d_term]. destruct b as [b|]; [destruct (ends_zero t1), (starts_zero b) | destruct (ends_zero t1)];
+      eexists _, _; (split; [reflexivity | discriminate]).
   - destruct nl; eexists _, _; (split; [reflexivity | discriminate]).
   - eexists _, _; split; [reflexivity | discriminate].
   - rewrite ak_call. eexists _, _; split; [reflexivity | discriminate].
@@ -364,7 +369,7 @@ Qed.
 Lemma nozero_term t k : starts_zero t = false -> nozero (ak (d_term c t) k) = true.
 Proof.
   intros H. destruct (ak_head t k) as (a & tl & -> & Ha). specialize (Ha H).
-  destruct a as [|[]|]; try reflexivity. congruence.
+  destruct a as [|[]| |]; try reflexivity. congruence.
 Qed.
 
 (* ---------- gluing, per form ---------- *)
@@ -403,24 +408,52 @@ Proof.
   intros Ht. unfold pblock, parens, enclose, dsym. cbn [ak]. rewrite glue_sym by reflexivity.
   rewrite Ht by (right; reflexivity). now rewrite glue_sym by reflexivity.
 Qed.
+Lemma nocmp_block d k : nocmp (ak (block c d) k) = true.
+Proof. reflexivity. Qed.
+Lemma ak_if s a b th el ty k :
+  ak (d_term c (FIfC s a b th el ty)) k =
+  AWord "if" ::
+    let br := ak (block c (d_term c th)) (AWord "else" :: ak (block c (d_term c el)) k) in
+    match b with
+    | None => if ends_zero a then ANum 0 :: ASym (SCmp (flip s)) :: ak (d_term c a) br
+              else ak (d_term c a) (ASym (SCmp s) :: ANum 0 :: br)
+    | Some b' => ak (d_term c a) ((if ends_zero a then [AComment] else []) ++
+                   ASym (SCmp s) :: (if starts_zero b' then [ASym SMinus] else []) ++ ak (d_term c b') br)
+    end.
+Proof.
+  cbn [d_term]. unfold word, dsym. destruct b as [b|].
+  - destruct (ends_zero a), (starts_zero b); reflexivity.
+  - destruct (ends_zero a); reflexivity.
+Qed.
 Lemma G_if s a b th el ty :
-  ends_zero a = false -> G a ->
-  match b with Some b' => starts_zero b' = false /\ G b' | None => True end ->
+  G a -> match b with Some b' => G b' | None => True end ->
   G th -> G el -> G (FIfC s a b th el ty).
 Proof.
-  intros Za Ha Hb Hth Hel k _. cbn [d_term Tk_term]. unfold word, dsym. cbn [ak].
+  intros Ha Hb Hth Hel k _. rewrite ak_if. cbv zeta. cbn [Tk_term].
   rewrite glue_word. change (word_token "if") with (TKw KIf). f_equal.
-  rewrite Ha by (left; exact Za). f_equal.
+  assert (Hbr : glue (ak (block c (d_term c th)) (AWord "else" :: ak (block c (d_term c el)) k))
+                = TSym SLBrace :: Tk_term th (TSym SRBrace :: TKw KElse :: TSym SLBrace :: Tk_term el (TSym SRBrace :: glue k))).
+  { rewrite G_block by auto. do 2 f_equal.
+    rewrite glue_word. change (word_token "else") with (TKw KElse). f_equal.
+    now rewrite G_block by auto. }
   destruct b as [b|].
-  - destruct Hb as [Zb Hb]. rewrite glue_cmp by (now apply nozero_term). f_equal.
-    rewrite Hb by (right; reflexivity). f_equal.
-    rewrite G_block by (auto). do 2 f_equal.
-    rewrite glue_word. change (word_token "else") with (TKw KElse). f_equal.
-    now rewrite G_block by auto.
-  - cbn [ak]. rewrite glue_cmp0. f_equal.
-    rewrite G_block by (auto). do 2 f_equal.
-    rewrite glue_word. change (word_token "else") with (TKw KElse). f_equal.
-    now rewrite G_block by auto.
+  - (* general form: a comment after a final 0 of the first operand, a minus sign before a leading 0 of the second *)
+    rewrite Ha by (destruct (ends_zero a); [right; reflexivity | left; reflexivity]). f_equal.
+    assert (glue ((if ends_zero a then [AComment] else []) ++
+                  ASym (SCmp s) :: (if starts_zero b then [ASym SMinus] else []) ++
+                  ak (d_term c b) (ak (block c (d_term c th)) (AWord "else" :: ak (block c (d_term c el)) k)))
+            = glue (ASym (SCmp s) :: (if starts_zero b then [ASym SMinus] else []) ++
+                    ak (d_term c b) (ak (block c (d_term c th)) (AWord "else" :: ak (block c (d_term c el)) k)))) as ->
+      by (destruct (ends_zero a); reflexivity).
+    destruct (starts_zero b) eqn:Zb; cbn [app].
+    + rewrite glue_cmp by reflexivity. f_equal. rewrite glue_sym by reflexivity. f_equal.
+      rewrite Hb by (right; apply nocmp_block). now rewrite Hbr.
+    + rewrite glue_cmp by (now apply nozero_term). f_equal.
+      rewrite Hb by (right; apply nocmp_block). now rewrite Hbr.
+  - destruct (ends_zero a) eqn:Za.
+    + (* zero on the left *)
+      rewrite glue_zero_cmp. f_equal. rewrite Ha by (right; apply nocmp_block). now rewrite Hbr.
+    + rewrite Ha by (left; exact Za). f_equal. rewrite glue_cmp0. now rewrite Hbr.
 Qed.
 Lemma G_print nl a next ty : G a -> G next -> G (FPrint nl a next ty).
 Proof.
@@ -536,65 +569,58 @@ Proof. intros Ht k _. cbn [d_term Tk_term]. now apply G_pblock. Qed.
 End GT.
 
 (* ---------- assembling ---------- *)
-Lemma G_all c : forall m t, tsz t <= m -> wf t = true -> zsafe t = true -> G c t.
+Lemma G_all c : forall m t, tsz t <= m -> wf t = true -> G c t.
 Proof.
-  induction m as [|m IH]; intros t Hm Hwf Hz. { pose proof (tsz_pos t). lia. }
-  assert (IHargs : forall args, list_sum (map tsz args) <= m -> forallb wf args = true -> forallb zsafe args = true ->
+  induction m as [|m IH]; intros t Hm Hwf. { pose proof (tsz_pos t). lia. }
+  assert (IHargs : forall args, list_sum (map tsz args) <= m -> forallb wf args = true ->
                                forall a, In a args -> G c a).
-  { intros args Hs Hw Hzs a Hin. rewrite forallb_forall in Hw, Hzs. apply IH; [|now apply Hw|now apply Hzs].
+  { intros args Hs Hw a Hin. rewrite forallb_forall in Hw. apply IH; [|now apply Hw].
     pose proof (in_list_sum tsz a args Hin). lia. }
   assert (IHcls : forall pol cls, list_sum (map csz cls) <= m -> forallb (wf_clause pol) cls = true ->
-                  forallb zsafe_clause cls = true -> forall cl, In cl cls -> Gcl c pol cl).
-  { intros pol cls Hs Hw Hzs cl Hin. rewrite forallb_forall in Hw, Hzs. specialize (Hw _ Hin). specialize (Hzs _ Hin).
+                  forall cl, In cl cls -> Gcl c pol cl).
+  { intros pol cls Hs Hw cl Hin. rewrite forallb_forall in Hw. specialize (Hw _ Hin).
     destruct cl as [p x ns g body]. apply G_clause; [assumption|].
     cbn [wf_clause] in Hw. rewrite !andb_true_iff in Hw. destruct Hw as (_ & Hb).
     pose proof (in_list_sum csz _ cls Hin) as Hc. rewrite csz_clause in Hc.
-    apply IH; [lia | assumption | exact Hzs]. }
+    apply IH; [lia | assumption]. }
   destruct t as [v ty chi | z | a o b | s a b th el ty | nl a next ty | v vty bound body ty | f args ret
                  | x args ty | scrut x targs args ty | scrut targs cls ty | cls ty | l u ty | l u ty | a ty | u].
   - cbn [wf] in Hwf. rewrite !andb_true_iff in Hwf. destruct Hwf as ((Hv & _) & _). now apply G_var.
   - apply G_lit.
   - cbn [wf] in Hwf. rewrite !andb_true_iff in Hwf. destruct Hwf as (((Ha & Hb) & _) & _).
-    cbn [zsafe] in Hz. apply andb_prop in Hz. destruct Hz as [Hza Hzb]. rewrite tsz_op in Hm.
-    apply G_op; apply IH; auto; lia.
+    rewrite tsz_op in Hm. apply G_op; apply IH; auto; lia.
   - cbn [wf] in Hwf. rewrite !andb_true_iff in Hwf. destruct Hwf as ((((Ha & Hb) & Hth) & Hel) & _).
-    cbn [zsafe] in Hz. rewrite !andb_true_iff in Hz. destruct Hz as ((((Hza & Hea) & Hzb) & Hzth) & Hzel).
-    rewrite tsz_if in Hm. apply negb_true_iff in Hea.
+    rewrite tsz_if in Hm.
     apply G_if; auto.
     + apply IH; auto; lia.
-    + destruct b as [b|]; [|exact I]. apply andb_prop in Hzb. destruct Hzb as [Hzb Hsb].
-      apply negb_true_iff in Hsb. split; [assumption|]. apply IH; auto; lia.
+    + destruct b as [b|]; [|exact I]. apply IH; auto; lia.
     + apply IH; auto; lia.
     + apply IH; auto; lia.
   - cbn [wf] in Hwf. rewrite !andb_true_iff in Hwf. destruct Hwf as ((Ha & Hn) & _).
-    cbn [zsafe] in Hz. apply andb_prop in Hz. destruct Hz as [Hza Hzn]. rewrite tsz_print in Hm.
-    apply G_print; apply IH; auto; lia.
+    rewrite tsz_print in Hm. apply G_print; apply IH; auto; lia.
   - cbn [wf] in Hwf. rewrite !andb_true_iff in Hwf. destruct Hwf as (((((Hv & Hvty) & Hb) & _) & Ht) & _).
-    cbn [zsafe] in Hz. apply andb_prop in Hz. destruct Hz as [Hzb Hzt]. rewrite tsz_let in Hm.
-    apply G_let; auto; apply IH; auto; lia.
+    rewrite tsz_let in Hm. apply G_let; auto; apply IH; auto; lia.
   - cbn [wf] in Hwf. rewrite !andb_true_iff in Hwf. destruct Hwf as ((Hf & Hargs) & _).
-    cbn [zsafe] in Hz. rewrite tsz_call in Hm. apply G_call; auto. apply IHargs; auto; lia.
+    rewrite tsz_call in Hm. apply G_call; auto. apply IHargs; auto; lia.
   - cbn [wf] in Hwf. rewrite !andb_true_iff in Hwf. destruct Hwf as ((Hf & Hargs) & _).
-    cbn [zsafe] in Hz. rewrite tsz_ctor in Hm. apply G_ctor; auto. apply IHargs; auto; lia.
+    rewrite tsz_ctor in Hm. apply G_ctor; auto. apply IHargs; auto; lia.
   - apply wf_dtor_inv in Hwf. destruct Hwf as (Hs & _ & Hx & Hty & Hargs & _).
-    cbn [zsafe] in Hz. apply andb_prop in Hz. destruct Hz as [Hzs Hza]. rewrite tsz_dtor in Hm.
-    apply G_dtor; auto.
+    rewrite tsz_dtor in Hm. apply G_dtor; auto.
     + apply IH; auto; lia.
     + apply IHargs; auto; lia.
   - apply wf_case_inv in Hwf. destruct Hwf as (Hs & _ & Hty & Hcls & _).
-    cbn [zsafe] in Hz. apply andb_prop in Hz. destruct Hz as [Hzs Hzc]. rewrite tsz_case in Hm.
-    apply G_case; auto.
+    rewrite tsz_case in Hm. apply G_case; auto.
     + apply IH; auto; lia.
     + apply (IHcls FData); auto; lia.
   - cbn [wf] in Hwf. rewrite !andb_true_iff in Hwf. destruct Hwf as (Hcls & _).
-    cbn [zsafe] in Hz. rewrite tsz_new in Hm. apply G_new. apply (IHcls FCodata); auto; lia.
+    rewrite tsz_new in Hm. apply G_new. apply (IHcls FCodata); auto; lia.
   - cbn [wf] in Hwf. rewrite !andb_true_iff in Hwf. destruct Hwf as ((Hl & Ht) & _).
-    cbn [zsafe] in Hz. rewrite tsz_label in Hm. apply G_label; auto. apply IH; auto; lia.
+    rewrite tsz_label in Hm. apply G_label; auto. apply IH; auto; lia.
   - cbn [wf] in Hwf. rewrite !andb_true_iff in Hwf. destruct Hwf as ((Hl & Ht) & _).
-    cbn [zsafe] in Hz. rewrite tsz_goto in Hm. apply G_goto; auto. apply IH; auto; lia.
+    rewrite tsz_goto in Hm. apply G_goto; auto. apply IH; auto; lia.
   - cbn [wf] in Hwf. rewrite !andb_true_iff in Hwf. destruct Hwf as (Ha & _).
-    cbn [zsafe] in Hz. rewrite tsz_exit in Hm. apply G_exit. apply IH; auto; lia.
-  - cbn [wf] in Hwf. cbn [zsafe] in Hz. rewrite tsz_paren in Hm. apply G_paren. apply IH; auto; lia.
+    rewrite tsz_exit in Hm. apply G_exit. apply IH; auto; lia.
+  - cbn [wf] in Hwf. rewrite tsz_paren in Hm. apply G_paren. apply IH; auto; lia.
 Qed.
 
 (* ---------- declarations ---------- *)
@@ -618,9 +644,9 @@ Proof.
   unfold d_decl_body, braces, enclose, dsym. destruct sigs as [|s l]; [reflexivity|].
   cbn [ak]. rewrite ak_intersperse by reflexivity. reflexivity.
 Qed.
-Lemma G_decl c d k : wf_decl d = true -> zsafe_decl d = true -> glue (ak (d_decl c d) k) = Tk_decl d (glue k).
+Lemma G_decl c d k : wf_decl d = true -> glue (ak (d_decl c d) k) = Tk_decl d (glue k).
 Proof.
-  intros Hwf Hz. destruct d as [d|d|d]; cbn [wf_decl zsafe_decl d_decl] in *.
+  intros Hwf. destruct d as [d|d|d]; cbn [wf_decl d_decl] in *.
   - destruct d as [x ps cs]. cbn [fdaname fdaparams fdactors] in *.
     rewrite !andb_true_iff in Hwf. destruct Hwf as ((Hx & Hps) & Hcs). rewrite forallb_forall in Hcs.
     unfold d_data, Tk_decl, word. cbn [fdaname fdaparams fdactors ak].
@@ -665,14 +691,14 @@ Proof.
 Qed.
 
 (* The token stream of the printed document, for every configuration. *)
-Theorem tokens_print c p : wf_prog p = true -> zsafe_prog p = true -> tokens (d_prog c p) = T_prog p.
+Theorem tokens_print c p : wf_prog p = true -> tokens (d_prog c p) = T_prog p.
 Proof.
-  intros Hwf Hz. unfold tokens. rewrite atoms_ak. destruct p as [ds]. unfold d_prog, T_prog, wf_prog, zsafe_prog in *.
+  intros Hwf. unfold tokens. rewrite atoms_ak. destruct p as [ds]. unfold d_prog, T_prog, wf_prog in *.
   cbn [fpdecls] in *.
   rewrite ak_intersperse_blank by (intros; destruct (pomit_sep c); reflexivity).
-  rewrite forallb_forall in Hwf, Hz.
+  rewrite forallb_forall in Hwf.
   change (@nil token) with (glue []). generalize (@nil atom) as k.
   induction ds as [|d ds IH]; intros k; [reflexivity|].
-  cbn [map fold_right Tk_decls]. rewrite G_decl by (try apply Hwf; try apply Hz; now left).
-  f_equal. apply IH; intros x Hx; [apply Hwf | apply Hz]; now right.
+  cbn [map fold_right Tk_decls]. rewrite G_decl by (apply Hwf; now left).
+  f_equal. apply IH; intros x Hx; apply Hwf; now right.
 Qed.
